@@ -16,7 +16,7 @@ RULE = ("Model-based history generation: Hypothesis draws a rank-planted problem
         "Network part: histories over a LocalNetwork object (see 'net').")
 ASSUMPTIONS = ["min_x(S') is only issued with subsets that numpy confirms to resolve the defect (non-resolving subsets belong to C02/C20)",
                "q_bx is never called (AdjEnvelope documents it as not implemented)"]
-REQUIRED_CLASSES = ["kind=adj", "kind=raw", "singular", "evict", "minx_after_q", "reset_after_q", "net.refine", "net.alg_switch", "net.update", "net.free"]
+REQUIRED_CLASSES = ["kind=adj", "kind=raw", "singular", "evict", "minx_after_q", "reset_after_q", "net.refine", "net.alg_switch", "net.update", "net.free", "svdclass.singular", "svdclass.subset_then_all"]
 
 
 @st.composite
@@ -370,9 +370,98 @@ def oracle_net(h, stats):
     return fails
 
 
+# ------------------------------------------------------------------ the SVD class itself (matvec/svd.h)
+
+@st.composite
+def svd_history(draw):
+    case = draw(gen_linear.linear_problem(max_n=7, max_extra=5, unit_cov=True))
+    n, m = case["n"], case["m"]
+    ops = []
+    for _ in range(draw(st.integers(2, 16))):
+        k = draw(st.sampled_from(["solve", "solve", "nullity", "qxx", "qxx", "qbb", "lindep", "minx", "minx", "minx_all", "reset", "decompose"]))
+        if k == "qxx":
+            ops.append(["qxx", draw(st.integers(1, n)), draw(st.integers(1, n))])
+        elif k == "qbb":
+            ops.append(["qbb", draw(st.integers(1, m)), draw(st.integers(1, m))])
+        elif k == "lindep":
+            ops.append(["lindep", draw(st.integers(1, n))])
+        elif k == "minx":
+            S = sorted(draw(st.sets(st.integers(1, n), min_size=1, max_size=n)))
+            ops.append(["minx", len(S)] + S)
+        else:
+            ops.append([k])
+    return {"case": case, "ops": ops}
+
+
+SVD_STATE = ("minx", "minx_all", "reset", "decompose")
+
+
+def run_svd(case, lines):
+    import json
+    from .. import build
+    A = np.array(case["A"], float).reshape(case["m"], case["n"])
+    head = "%d %d\n" % (case["m"], case["n"]) + "\n".join(" ".join(repr(float(v)) for v in row) for row in A) + "\n" + \
+        " ".join(repr(float(v)) for v in case["b"]) + "\n"
+    rc, out, err, crash = drv.run([build.exe("gdrv_svd")], stdin_text=head + "\n".join(lines) + "\n", timeout=60)
+    if crash is not None:
+        return None, crash
+    rows = []
+    for l in out.splitlines():
+        try:
+            rows.append(json.loads(l))
+        except ValueError:
+            rows.append({"fatal": l[:80]})
+    return rows, None
+
+
+def oracle_svd(h, stats):
+    case, ops = h["case"], h["ops"]
+    lines = [" ".join(str(t) for t in op) for op in ops]
+    full, crash = run_svd(case, lines)
+    if crash is not None:
+        return ["svdclass.crash: %s %s (history %s)" % (crash["kind"], crash["frame"], lines)]
+    if len(full) != len(lines):
+        return ["svdclass.short: %d answers for %d commands" % (len(full), len(lines))]
+    stats.label("svdclass.singular" if case["d"] > 0 else "svdclass.regular")
+    if any(op[0] == "minx" for op in ops) and any(op[0] == "minx_all" for op in ops):
+        stats.label("svdclass.subset_then_all")
+    fails = []
+    nq = 0
+    for k, op in enumerate(ops):
+        if op[0] in SVD_STATE:
+            continue
+        nq += 1
+        if nq > 8:
+            break
+        # reset() keeps the regularisation mode: the fresh object replays every state change
+        prefix = [lines[j] for j in range(k) if ops[j][0] in SVD_STATE and ops[j][0] != "decompose"]
+        ref, crash = run_svd(case, prefix + [lines[k]])
+        if crash is not None:
+            fails.append("svdclass.fresh.crash: %s %s" % (crash["kind"], crash["frame"]))
+            break
+        a, b = full[k], ref[-1]
+        if ("v" in a) != ("v" in b):
+            fails.append("svdclass.history.%s: after %s the answer is %s, a fresh object says %s" % (op[0], lines[:k], a, b))
+            break
+        if "v" not in a:
+            continue
+        va, vb = np.atleast_1d(np.array(a["v"], float)), np.atleast_1d(np.array(b["v"], float))
+        if va.shape != vb.shape or not np.all(np.isfinite(va)) == np.all(np.isfinite(vb)):
+            fails.append("svdclass.history.%s.shape: %s vs %s" % (op[0], a, b))
+            break
+        scale = max(1.0, float(np.max(np.abs(vb))) if vb.size else 1.0)
+        err = float(np.max(np.abs(va - vb))) if va.size else 0.0
+        if err > 1e-8 * scale:
+            fails.append("svdclass.history.%s: after %s the answer differs from a fresh object's by %.3g" % (op[0], lines[:k], err))
+            break
+    return fails
+
+
 PARTS = [
     Part("history", strategy=history, oracle=oracle, nontrivial=is_nontrivial,
          n={"quick": 6000, "thorough": 40000}),
+    Part("svdclass", strategy=svd_history, oracle=oracle_svd, n={"quick": 2000, "thorough": 20000},
+         nontrivial=lambda h: h["case"]["d"] > 0 and any(op[0] in SVD_STATE for op in h["ops"])),
     Part("net", strategy=net_history, oracle=oracle_net, n={"quick": 800, "thorough": 8000},
          nontrivial=lambda h: any(op[0] in STATE_OPS for op in h["ops"]),
          sample=lambda h: {"alg": h["alg"], "ops": h["ops"], "free": bool(h["net"].get("free"))}),
